@@ -237,8 +237,12 @@ package receiver
 //@ spec func fePUid(r: int, fl: int, p0: int): int = fePMode(r, fl, p0) + ite(flSameMode(fl), 0, 4)
 //@ spec func fePGid(r: int, fl: int, p0: int, uid: bool): int = fePUid(r, fl, p0) + ite(uid && !flSameUid(fl), 4, 0)
 //@ spec func fePRdev(r: int, fl: int, p0: int, uid: bool, gid: bool): int = fePGid(r, fl, p0, uid) + ite(gid && !flSameGid(fl), 4, 0)
+//@ spec func fePLink(r: int, fl: int, p0: int, uid: bool, gid: bool, dev: bool, spec: bool, m: int): int = fePRdev(r, fl, p0, uid, gid) + ite(rdevOnWire(dev, spec, m) && !flSameRdev(fl), 4, 0)
+//@ spec func fePSum(r: int, fl: int, p0: int, uid: bool, gid: bool, dev: bool, spec: bool, links: bool, m: int): int = fePLink(r, fl, p0, uid, gid, dev, spec, m) + ite(links && mdIsLink(m), 4 + i32At(r, fePLink(r, fl, p0, uid, gid, dev, spec, m)), 0)
 //@ func (*receiver.Transfer).receiveFileEntry
 //@   modifies rsyncwire.CountingReader.BytesRead, ghost.rpos
+//@   at[C15,C14] (*rsyncwire.Conn).ReadInt32@7: assert [at-link-field] select(ghost.rpos, data(rt.Conn.Reader)) == fePLink(data(rt.Conn.Reader), flags, old(select(ghost.rpos, data(rt.Conn.Reader))), rt.Opts.PreserveUid, rt.Opts.PreserveGid, rt.Opts.PreserveDevices, rt.Opts.PreserveSpecials, f.Mode) && f.Mode == feMode(data(rt.Conn.Reader), flags, old(select(ghost.rpos, data(rt.Conn.Reader))), old(last.Mode)) && rt.Opts.PreserveLinks && mdIsLink(f.Mode)
+//@   ensures[C15,C14] [bytes-consumed] err == nil ==> select(ghost.rpos, data(rt.Conn.Reader)) == fePSum(data(rt.Conn.Reader), flags, old(select(ghost.rpos, data(rt.Conn.Reader))), rt.Opts.PreserveUid, rt.Opts.PreserveGid, rt.Opts.PreserveDevices, rt.Opts.PreserveSpecials, rt.Opts.PreserveLinks, result.Mode) + ite(rt.Opts.AlwaysChecksum, 16, 0)
 //@   at[C15] (*rsyncwire.Conn).ReadInt64: assert [at-length-field] select(ghost.rpos, data(rt.Conn.Reader)) == fePLen(data(rt.Conn.Reader), flags, old(select(ghost.rpos, data(rt.Conn.Reader))))
 //@   at[C15] (*rsyncwire.Conn).ReadInt32@2: assert [at-mtime-field] select(ghost.rpos, data(rt.Conn.Reader)) == fePTime(data(rt.Conn.Reader), flags, old(select(ghost.rpos, data(rt.Conn.Reader))))
 //@   at[C15] (*rsyncwire.Conn).ReadInt32@3: assert [at-mode-field] select(ghost.rpos, data(rt.Conn.Reader)) == fePMode(data(rt.Conn.Reader), flags, old(select(ghost.rpos, data(rt.Conn.Reader))))
